@@ -133,6 +133,17 @@ Theorem C11_hot_update_no_restart : forall l h1 h2,
 Proof. exact hot_update_no_restart. Qed.
 Print Assumptions C11_hot_update_no_restart.
 
+(** ObjectRegistry.applyConfig: an entry that cannot be decoded (unknown kind, malformed YAML,
+    spec failing validation) never affects another object of the same round: every name whose own
+    entry is decodable (or that is absent) gets the event and ends with the entity it would have got
+    had the undecodable entries not been there *)
+Theorem C11_registry_bad_entry_frame : forall ents snap n,
+  slookup n snap <> Some None ->
+  reg_event ents (reg_healthy snap) n = reg_event ents snap n /\
+  reg_after ents (reg_healthy snap) n = reg_after ents snap n.
+Proof. exact registry_bad_entry_frame. Qed.
+Print Assumptions C11_registry_bad_entry_frame.
+
 (** non-vacuity: see [mux_nonvacuous], [tc_nonvacuous], [w_spec_ok] and the refutation witnesses in
     proofs/ReloadProofs.v *)
 Example C11_nonvacuous :
